@@ -15,9 +15,9 @@ Local Open Scope N_scope.
 Definition two64 : N := 18446744073709551616.
 Definition mask64 : N := 18446744073709551615.
 
-(* [x mod 2^64], written so that the extracted code does not run a 64-step division
-   when the value is already in range (Blake2bProofs.wrap64_mod) *)
-Definition wrap64 (v : N) : N := if v <? two64 then v else v mod two64.
+(* [x mod 2^64], written so that the extracted code never runs a division: the low
+   64 bits are kept with a mask (Blake2bProofs.wrap64_mod) *)
+Definition wrap64 (v : N) : N := if v <? two64 then v else N.land v mask64.
 
 (* Go: a += b on uint64 *)
 Definition add64 (a b : N) : N := wrap64 (a + b).
@@ -27,9 +27,15 @@ Definition rotr64 (x k : N) : N :=
   N.lor (N.shiftr x k) (N.shiftl (N.land x (N.ones k)) (64 - k)).
 
 (* blake2b.go: var iv *)
-Definition iv : list N :=
-  [ 0x6a09e667f3bcc908; 0xbb67ae8584caa73b; 0x3c6ef372fe94f82b; 0xa54ff53a5f1d36f1;
-    0x510e527fade682d1; 0x9b05688c2b3e6c1f; 0x1f83d9abfb41bd6b; 0x5be0cd19137e2179 ].
+Definition iv0 : N := 0x6a09e667f3bcc908.
+Definition iv1 : N := 0xbb67ae8584caa73b.
+Definition iv2 : N := 0x3c6ef372fe94f82b.
+Definition iv3 : N := 0xa54ff53a5f1d36f1.
+Definition iv4 : N := 0x510e527fade682d1.
+Definition iv5 : N := 0x9b05688c2b3e6c1f.
+Definition iv6 : N := 0x1f83d9abfb41bd6b.
+Definition iv7 : N := 0x5be0cd19137e2179.
+Definition iv : list N := [iv0; iv1; iv2; iv3; iv4; iv5; iv6; iv7].
 
 (* blake2b_generic.go: var precomputed = [10][16]byte *)
 Definition precomputed : list (list N) :=
@@ -100,11 +106,11 @@ Definition rounds_from (m : list N) (i0 n : N) (v : vec16) : vec16 :=
 
 (* Go: v0..v7 := h[0..7]; v8..v15 := iv[0..7]; v12 ^= c0; v13 ^= c1; v14 ^= flag *)
 Definition init_vec (h : list N) (c0 c1 flag : N) : option vec16 :=
-  match h, iv with
-  | [h0; h1; h2; h3; h4; h5; h6; h7], [i0; i1; i2; i3; i4; i5; i6; i7] =>
-      Some (V16 h0 h1 h2 h3 h4 h5 h6 h7 i0 i1 i2 i3
-                (N.lxor i4 c0) (N.lxor i5 c1) (N.lxor i6 flag) i7)
-  | _, _ => None
+  match h with
+  | [h0; h1; h2; h3; h4; h5; h6; h7] =>
+      Some (V16 h0 h1 h2 h3 h4 h5 h6 h7 iv0 iv1 iv2 iv3
+                (N.lxor iv4 c0) (N.lxor iv5 c1) (N.lxor iv6 flag) iv7)
+  | _ => None
   end.
 
 (* Go: h[0] ^= v0 ^ v8 ... h[7] ^= v7 ^ v15 *)
